@@ -330,9 +330,18 @@ impl<T> std::future::Future for SendFut<'_, T> {
         Poll::Pending
     }
 }
+pub struct RecvFut<'a, T>(&'a mut Receiver<T>);
+impl<T> Unpin for RecvFut<'_, T> {}
+impl<T> std::future::Future for RecvFut<'_, T> {
+    type Output = Option<T>;
+    fn poll(mut self: std::pin::Pin<&mut Self>, cx: &mut Context<'_>) -> Poll<Option<T>> {
+        (self.0).0.poll_recv(cx)
+    }
+}
 impl<T> Receiver<T> {
-    pub async fn recv(&mut self) -> Option<T> {
-        std::future::poll_fn(|cx| self.0.poll_recv(cx)).await
+    /// `async fn` in tokio; a named future here (same call syntax, one coroutine layer less).
+    pub fn recv(&mut self) -> RecvFut<'_, T> {
+        RecvFut(self)
     }
     pub fn poll_recv(&mut self, cx: &mut Context<'_>) -> Poll<Option<T>> {
         self.0.poll_recv(cx)
